@@ -12,10 +12,10 @@ use crate::runner::Scenario;
 pub static SCENARIO: Scenario = Scenario {
     property: "C09",
     level: "fault_enumeration",
-    rule: "byzantine sender / torn delivery against all 24 entry points with valid keys. Enumerated completely: each of the 8 correct headers followed by base64url of every decoded length 0..=400 (zeros / ones / seeded random; without footer, with the expected footer, with a trailing dot); every string of 0..6 segments over {empty, valid b64, invalid b64, padded b64} and header+0..4 such segments; Key::<N>::try_from for N in {24,32,48,49,64} on every hex length 0..=200 plus non-hex text. Authentic tokens whose exp/nbf/iat claims carry extreme or malformed values (year 0000/9999 with extreme offsets, leap seconds, impossible dates, 100 kB strings, 1e308, deeply nested JSON) parsed at extreme simulated instants. Sampled: every proper prefix of authentic tokens of every protocol/layer, arbitrary Unicode strings, large inputs, channel-fault outputs. A case is non-trivial when the string is not an authentic token for the verifier; distinct = distinct abstract traces (sequence of (op kind, fault kind, protocol, layer, verdict class, clause)).",
+    rule: "byzantine sender / torn delivery against all 24 entry points with valid keys. Enumerated completely: each of the 8 correct headers followed by base64url of every decoded length 0..=400 (zeros / ones / seeded random; without footer, with the expected footer, with a trailing dot); every string of 0..6 segments over {empty, valid b64, invalid b64, padded b64} and header+0..4 such segments; Key::<N>::try_from for N in {24,32,48,49,64} on every hex length 0..=200 plus non-hex text. Authentic tokens whose exp/nbf/iat claims carry extreme or malformed values (year 0000/9999 with extreme offsets, leap seconds, impossible dates, 100 kB strings, 1e308, deeply nested JSON) parsed at extreme simulated instants. The event lists of the other scenario families (channel faults, mis-deliveries, expectation/validator configurations, builder histories) are borrowed and judged for crash freedom only. Sampled: every proper prefix of authentic tokens of every protocol/layer, arbitrary Unicode strings, large inputs, channel-fault outputs. A case is non-trivial when the string is not an authentic token for the verifier; distinct = distinct abstract traces (sequence of (op kind, fault kind, protocol, layer, verdict class, clause)).",
     runs: |t| match t {
-        Tier::Quick => 72 + 24 + 5 + 24 + 160 + 240,
-        Tier::Thorough => 72 + 24 + 5 + 24 + 4000 + 12000,
+        Tier::Quick => 72 + 24 + 5 + 24 + 160 + 330 + 240,
+        Tier::Thorough => 72 + 24 + 5 + 24 + 4000 + 11_000 + 12000,
     },
     gen,
     judge: |run, obs| oracle::judge("C09", run, obs),
@@ -27,7 +27,10 @@ pub static SCENARIO: Scenario = Scenario {
 };
 
 fn verifiers_for(rb: &mut RunBuilder, r: &mut crate::prng::Rng, proto: Proto, footer: Option<String>) -> Vec<u32> {
-    let key = rb.key(key_for(proto, r));
+    // v1.public verifiers also get RSA keys larger than 2048 bits (their signatures are longer than the
+    // 256 bytes the protocol slices off)
+    let kspec = if proto == Proto::V1P { KeySpec::Rsa { fixture: r.usize(crate::keys::RSA_FIXTURES.len()) } } else { key_for(proto, r) };
+    let key = rb.key(kspec);
     let mut out = vec![];
     for layer in ALL_LAYERS {
         let spec = VerifierSpec {
@@ -59,7 +62,8 @@ fn gen(ctx: &GenCtx, i: u64) -> Option<Run> {
         let content = i % 3;
         let mut rb = RunBuilder::new("C09", "byzantine-sender/header+length-sweep", ctx.verif_seed, i);
         let vs = verifiers_for(&mut rb, &mut r, proto, if fv == 1 { Some("foo".into()) } else { None });
-        for len in 0..=400usize {
+        let maxlen = if proto == Proto::V1P { 600usize } else { 400 };
+        for len in 0..=maxlen {
             let bytes = match content {
                 0 => vec![0u8; len],
                 1 => vec![0xffu8; len],
@@ -250,6 +254,23 @@ fn gen(ctx: &GenCtx, i: u64) -> Option<Run> {
             rb.deliver(m, v, now + 1_000_000);
         }
         return Some(rb.finish());
+    }
+    // ---- block F: the event lists of every other scenario family, judged for crash freedom only: every
+    // channel-fault output, mis-delivery, expectation/validator configuration and builder history those
+    // families produce is also "some token text handed to some entry point"
+    let i5 = i4 - n_prefix;
+    let n_borrow = if ctx.tier == Tier::Quick { 330 } else { 11_000 };
+    if i5 < n_borrow {
+        let fams: [&crate::runner::Scenario; 11] = [
+            &super::c03::SCENARIO, &super::c04::SCENARIO, &super::c05::C05, &super::c05::C06, &super::c07::SCENARIO, &super::c11::C11,
+            &super::c11::C12, &super::c13::C17, &super::c14::SCENARIO, &super::c15::C15, &super::c15::C16,
+        ];
+        let f = fams[(i5 % 11) as usize];
+        let mut run = (f.gen)(ctx, 1_000_000 + i5 / 11)?;
+        run.scenario = format!("borrowed:{}:{}", f.property, run.scenario);
+        run.property = "C09".into();
+        run.run = i;
+        return Some(run);
     }
     // ---- block E: arbitrary strings
     let mut rb = RunBuilder::new("C09", "byzantine-sender/arbitrary-text", ctx.verif_seed, i);
